@@ -18,8 +18,13 @@ mod comment_parsers;
 mod lhs_masker;
 #[path = "/repo/harper-typst/src/offset_cursor.rs"]
 mod offset_cursor;
+// `CommentMasker` is private to harper-comments (`mod masker;`): the real source file is compiled in
+#[path = "/repo/harper-comments/src/masker.rs"]
+#[allow(dead_code)]
+mod comment_masker;
 
 use super::cgen;
+use comment_masker::CommentMasker;
 use comment_parsers::{Go, JavaDoc, JsDoc, Unit};
 use lhs_masker::LiterateHaskellMasker;
 use offset_cursor::OffsetCursor;
@@ -88,6 +93,10 @@ impl<P: Parser> Recorder<P> {
     fn calls(&self) -> usize {
         self.log.lock().unwrap().len()
     }
+    /// every call in order: (chunk, answer)
+    fn log_clone(&self) -> Vec<(Vec<char>, Vec<Token>)> {
+        self.log.lock().unwrap().clone()
+    }
 }
 impl<P: Parser> Parser for Recorder<P> {
     fn parse(&self, source: &[char]) -> Vec<Token> {
@@ -110,10 +119,12 @@ pub struct KOut {
     pub imp: String,
     pub counts: Vec<String>,
     pub nontrivial: bool,
+    /// (class, description): the REAL code's output violates the property clause the op is about
+    pub fails: Vec<(String, String)>,
 }
 
 fn kout(op: String, imp: String) -> KOut {
-    KOut { op, imp, counts: vec![], nontrivial: false }
+    KOut { op, imp, counts: vec![], nontrivial: false, fails: vec![] }
 }
 
 // ---------------------------------------------------------------------------------------------
@@ -212,6 +223,78 @@ pub fn eval_tsmask(lang: &str, cond_ix: usize, text: &str) -> KOut {
 }
 
 // ---------------------------------------------------------------------------------------------
+// (a2) CommentMasker::create_mask: the tree-sitter mask, then the ignore-marker filter, then
+//      Mask::from_iter (model: `commentMask ignoreCondition`)
+// ---------------------------------------------------------------------------------------------
+
+/// the ignore condition as the PROPERTY states it (marker table regenerated from masker.rs ∪ the
+/// committed list; `#!` at the start of the span)
+fn span_is_ignored(text: &str, markers: &[String]) -> bool {
+    markers.iter().any(|m| text.contains(m.as_str())) || text.starts_with("#!")
+}
+
+pub fn eval_cmask(lang: &str, cond_ix: usize, text: &str, markers: &[String]) -> KOut {
+    let (cname, cond) = CONDS[cond_ix % CONDS.len()];
+    let language = ts_language(lang);
+    let src: Vec<char> = text.chars().collect();
+    // data: the node byte ranges tree-sitter reports for this text (BEFORE byte→char, merging, filter)
+    let mut ranges = vec![];
+    let mut parser = tree_sitter::Parser::new();
+    parser.set_language(language).unwrap();
+    if let Some(tree) = parser.parse(text, None) {
+        walk(&mut tree.walk(), cond, &mut ranges);
+    }
+    let op = format!("cmask | {} | {} | {}", bytes_field(text), ws_text_field(&src), spans_field(&ranges));
+    let masker = CommentMasker::new(language, cond);
+    let real = guarded(|| {
+        let m = masker.create_mask(&src);
+        m.iter_allowed(&src).map(|(s, _)| (s.start, s.end)).collect::<Vec<_>>()
+    });
+    let imp = match &real {
+        Ok(v) => ok_spans(v),
+        Err(_) => "panic".into(),
+    };
+    let mut o = kout(op, imp);
+    o.counts.push(format!("cmask:{}:{}", lang, cname));
+    // O: the clauses of `ignoreMarker_drops` on the REAL masks (inner tree-sitter mask vs comment mask)
+    let inner = harper_tree_sitter::TreeSitterMasker::new(language, cond);
+    let before = guarded(|| {
+        let m = inner.create_mask(&src);
+        m.iter_allowed(&src).map(|(s, _)| (s.start, s.end)).collect::<Vec<_>>()
+    });
+    match (&before, &real) {
+        (Ok(b), Ok(k)) => {
+            let txt = |sp: &(usize, usize)| src[sp.0..sp.1].iter().collect::<String>();
+            let want: Vec<(usize, usize)> = b.iter().filter(|sp| !span_is_ignored(&txt(sp), markers)).cloned().collect();
+            if &want != k {
+                o.fails.push((
+                    "ignore-filter".into(),
+                    format!("CommentMasker kept {:?}; the spans of the tree-sitter mask {:?} without an ignore marker / leading #! are {:?}", k, b, want),
+                ));
+            }
+            let dropped = b.len() - want.len().min(b.len());
+            o.counts.push(format!("cmask:dropped:{}", dropped.min(3)));
+            if dropped > 0 && !want.is_empty() {
+                o.counts.push("cmask:some-dropped-some-kept".into());
+            }
+            if b.iter().any(|sp| txt(sp).starts_with("#!")) {
+                o.counts.push("cmask:shebang-span".into());
+            }
+            // a dropped span that holds more than one node range: comments merged over white space
+            if b.iter().any(|sp| span_is_ignored(&txt(sp), markers) && ranges.iter().filter(|r| text.is_char_boundary(r.0) && text[..r.0].chars().count() >= sp.0 && text[..r.0].chars().count() < sp.1).count() >= 2) {
+                o.counts.push("cmask:marker-drops-merged-neighbours".into());
+            }
+            o.nontrivial = dropped > 0 && b.len() >= 2;
+        }
+        (Err(_), Ok(_)) | (Ok(_), Err(_)) => {
+            o.fails.push(("ignore-filter".into(), "TreeSitterMasker and CommentMasker disagree on panicking".into()));
+        }
+        (Err(_), Err(_)) => o.counts.push("cmask:panic".into()),
+    }
+    o
+}
+
+// ---------------------------------------------------------------------------------------------
 // (b) Mask::push_allowed / merge_whitespace_sep, parsers::Mask::parse
 // ---------------------------------------------------------------------------------------------
 
@@ -268,6 +351,93 @@ pub fn eval_maskparse(text: &str, spans: &[(usize, usize)]) -> KOut {
 // (c) Unit / JsDoc (line splitting, leader stripping, inline tags)
 // ---------------------------------------------------------------------------------------------
 
+/// `InnerOK` of the Lean side: tokens inside `0..len`, well-formed, in order
+fn inner_ok(len: usize, ts: &[Token]) -> bool {
+    ts.iter().all(|t| t.span.start <= t.span.end && t.span.end <= len) && ts.windows(2).all(|w| w[0].span.end <= w[1].span.start)
+}
+
+/// (start, end) of `without_initiators` (re-implemented: this is the oracle's side)
+fn woi_range(src: &[char]) -> (usize, usize) {
+    let skip = |c: &char| matches!(*c, '#' | '-' | '/' | '*' | '!') || c.is_whitespace();
+    let start = src.iter().position(|c| !skip(c)).unwrap_or(src.len());
+    let end = src.len() - src.iter().rev().position(|c| !skip(c)).unwrap_or(0);
+    (start, end)
+}
+
+/// `JsDocLines` (Lemmas/Mask.lean) as a decidable predicate on the real output: line by line, the
+/// recorded inner tokens of the stripped line — same spans, same order, kind kept or Unlintable —
+/// shifted by Σ(len+1) + leader, then the line break unless it is the last line
+fn jsdoc_span_oracle(src: &[char], log: &[(Vec<char>, Vec<Token>)], out: &[Token]) -> Result<(), String> {
+    let lines: Vec<&[char]> = src.split(|c| *c == '\n').collect();
+    let mut exp: Vec<(usize, usize, Option<TokenKind>)> = vec![];
+    let (mut trav, mut call) = (0usize, 0usize);
+    for (j, line) in lines.iter().enumerate() {
+        let (s, e) = woi_range(line);
+        if s > e {
+            return Err(format!("line {}: leader stripping gives the inverted range {}..{}", j, s, e));
+        }
+        if e > s {
+            let Some((chunk, toks)) = log.get(call) else {
+                return Err(format!("line {}: no inner-parser call for a non-empty stripped line", j));
+            };
+            call += 1;
+            if chunk[..] != line[s..e] {
+                return Err(format!("line {}: the inner parser was handed {:?}, the stripped line is {:?}", j, chunk.iter().collect::<String>(), line[s..e].iter().collect::<String>()));
+            }
+            for t in toks {
+                exp.push((trav + s + t.span.start, trav + s + t.span.end, Some(t.kind.clone())));
+            }
+        }
+        if j + 1 < lines.len() {
+            exp.push((trav + line.len(), trav + line.len() + 1, None));
+        }
+        trav += line.len() + 1;
+    }
+    if call != log.len() {
+        return Err(format!("{} inner-parser calls for {} non-empty stripped lines", log.len(), call));
+    }
+    if exp.len() != out.len() {
+        return Err(format!("{} tokens, expected {} (inner tokens + line breaks)", out.len(), exp.len()));
+    }
+    for (i, ((a, b, k), y)) in exp.iter().zip(out.iter()).enumerate() {
+        let kind_ok = match k {
+            None => y.kind == TokenKind::Newline(1),
+            Some(k) => y.kind == *k || y.kind == TokenKind::Unlintable,
+        };
+        if y.span.start != *a || y.span.end != *b || !kind_ok {
+            return Err(format!("token {} is {}, expected span {}-{} with the inner kind or Unlintable", i, tok_show(y), a, b));
+        }
+    }
+    Ok(())
+}
+
+/// `javadocParse_span_faithful` as a decidable predicate on the real output: a subsequence of the
+/// HTML parser's tokens (shifted by the opening delimiter) with kind kept or Unlintable; only `*` and
+/// space tokens are lost
+fn javadoc_span_oracle(off: usize, html: &[Token], out: &[Token]) -> Result<(), String> {
+    let mut i = 0usize;
+    for (n, y) in out.iter().enumerate() {
+        loop {
+            let Some(x) = html.get(i) else {
+                return Err(format!("token {} {} is not (in order) the shifted image of an HTML-parser token", n, tok_show(y)));
+            };
+            i += 1;
+            if x.span.start + off == y.span.start && x.span.end + off == y.span.end && (y.kind == x.kind || y.kind == TokenKind::Unlintable) {
+                break;
+            }
+            if !(x.kind.is_space() || matches!(x.kind, TokenKind::Punctuation(harper_core::Punctuation::Star))) {
+                return Err(format!("HTML-parser token {} (not a leader) is missing before output token {}", tok_show(x), n));
+            }
+        }
+    }
+    for x in &html[i.min(html.len())..] {
+        if !(x.kind.is_space() || matches!(x.kind, TokenKind::Punctuation(harper_core::Punctuation::Star))) {
+            return Err(format!("HTML-parser token {} (not a leader) is missing at the end", tok_show(x)));
+        }
+    }
+    Ok(())
+}
+
 #[derive(Clone, Copy, PartialEq)]
 pub enum InnerKind {
     Spy,
@@ -278,7 +448,8 @@ pub enum InnerKind {
 pub fn eval_unit(jsdoc: bool, inner: InnerKind, text: &str) -> KOut {
     let src: Vec<char> = text.chars().collect();
     let opname = if jsdoc { "jsdoc" } else { "unit" };
-    fn go<P: Parser + 'static>(jsdoc: bool, rec: Lrc<Recorder<P>>, src: &[char]) -> (Result<Vec<Token>, String>, String) {
+    type Log = Vec<(Vec<char>, Vec<Token>)>;
+    fn go<P: Parser + 'static>(jsdoc: bool, rec: Lrc<Recorder<P>>, src: &[char]) -> (Result<Vec<Token>, String>, String, Log) {
         let r = if jsdoc {
             let p = JsDoc::new(rec.clone());
             guarded(|| p.parse(src))
@@ -286,19 +457,38 @@ pub fn eval_unit(jsdoc: bool, inner: InnerKind, text: &str) -> KOut {
             let p = Unit::new(rec.clone());
             guarded(|| p.parse(src))
         };
-        (r, rec.runs_field())
+        (r, rec.runs_field(), rec.log_clone())
     }
-    let (r, runs) = match inner {
+    let (r, runs, log) = match inner {
         InnerKind::Spy => go(jsdoc, Lrc::new(Recorder::new(Spy)), &src),
         InnerKind::Plain => go(jsdoc, Lrc::new(Recorder::new(PlainEnglish)), &src),
         InnerKind::Markdown => go(jsdoc, Lrc::new(Recorder::new(Markdown::default())), &src),
     };
     let op = format!("{} | {}{}", opname, ws_text_field(&src), runs);
-    let imp = match r {
-        Ok(t) => ok_toks(&t),
+    let imp = match &r {
+        Ok(t) => ok_toks(t),
         Err(_) => "panic".into(),
     };
     let mut o = kout(op, imp);
+    if jsdoc {
+        // O: `jsdocParse_span_faithful` / `jsdocParse_inbounds` on the REAL parser's output
+        match &r {
+            Ok(t) => {
+                if let Err(e) = jsdoc_span_oracle(&src, &log, t) {
+                    o.fails.push(("jsdoc-span-unfaithful".into(), e));
+                }
+                if log.iter().all(|(c, ts)| inner_ok(c.len(), ts)) {
+                    if !inner_ok(src.len(), t) {
+                        o.fails.push(("jsdoc-span-unfaithful".into(), format!("tokens out of bounds / out of order although the inner parser's were not: {}", toks_show(t))));
+                    }
+                } else {
+                    o.counts.push("jsdoc:inner-parser-not-InnerOK".into());
+                }
+                o.counts.push("jsdoc:span-oracle".into());
+            }
+            Err(e) => o.fails.push(("jsdoc-span-unfaithful".into(), format!("JsDoc::parse panicked: {}", trunc(e, 160)))),
+        }
+    }
     o.counts.push(format!("{}:{}", opname, match inner { InnerKind::Spy => "spy", InnerKind::Plain => "plain", InnerKind::Markdown => "markdown" }));
     if o.imp.contains("unl@") {
         o.counts.push(format!("{}:unlintable-marked", opname));
@@ -337,11 +527,31 @@ pub fn eval_javadoc(text: &str) -> KOut {
     };
     let op = format!("javadoc | {}{}", ws_text_field(&src), run);
     let p = JavaDoc::default();
-    let imp = match guarded(|| p.parse(&src)) {
-        Ok(t) => ok_toks(&t),
+    let real = guarded(|| p.parse(&src));
+    let imp = match &real {
+        Ok(t) => ok_toks(t),
         Err(_) => "panic".into(),
     };
     let mut o = kout(op, imp);
+    // O: `javadocParse_span_faithful` / `javadocParse_inbounds` on the REAL parser's output
+    match (&html, &real) {
+        (Ok(h), Ok(t)) => {
+            let (a, _) = woi_range(&src);
+            if let Err(e) = javadoc_span_oracle(a, h, t) {
+                o.fails.push(("javadoc-span-unfaithful".into(), e));
+            }
+            if inner_ok(chunk.len(), h) {
+                if !inner_ok(src.len(), t) {
+                    o.fails.push(("javadoc-span-unfaithful".into(), format!("tokens out of bounds / out of order although the HTML parser's were not: {}", toks_show(t))));
+                }
+            } else {
+                o.counts.push("javadoc:html-parser-not-InnerOK".into());
+            }
+            o.counts.push("javadoc:span-oracle".into());
+        }
+        (Ok(_), Err(e)) => o.fails.push(("javadoc-span-unfaithful".into(), format!("JavaDoc::parse panicked although the HTML parser did not: {}", trunc(e, 160)))),
+        _ => o.counts.push("javadoc:html-parser-panicked".into()),
+    }
     o.counts.push("javadoc".into());
     if o.imp.contains("unl@") {
         o.counts.push("javadoc:unlintable-marked".into());
@@ -511,6 +721,7 @@ pub fn eval_mdtrav(text: &str) -> KOut {
 // ---------------------------------------------------------------------------------------------
 
 enum Job {
+    CMask(&'static str, usize, String),
     TsMask(&'static str, usize, String),
     Mws(String, Vec<(usize, usize)>),
     MaskParse(String, Vec<(usize, usize)>),
@@ -523,8 +734,9 @@ enum Job {
     MdTrav(String),
 }
 
-fn run_job(j: &Job) -> KOut {
+fn run_job(j: &Job, markers: &[String]) -> KOut {
     match j {
+        Job::CMask(l, c, t) => eval_cmask(l, *c, t, markers),
         Job::TsMask(l, c, t) => eval_tsmask(l, *c, t),
         Job::Mws(t, s) => eval_mws(t, s),
         Job::MaskParse(t, s) => eval_maskparse(t, s),
@@ -540,6 +752,7 @@ fn run_job(j: &Job) -> KOut {
 
 fn job_json(j: &Job) -> Value {
     match j {
+        Job::CMask(l, c, t) => json!({"kop": "cmask", "lang": l, "cond": c, "text": t}),
         Job::TsMask(l, c, t) => json!({"kop": "tsmask", "lang": l, "cond": c, "text": t}),
         Job::Mws(t, s) => json!({"kop": "mws", "text": t, "spans": s}),
         Job::MaskParse(t, s) => json!({"kop": "maskparse", "text": t, "spans": s}),
@@ -750,6 +963,7 @@ pub fn replay(sess: &mut Session, v: &Value) {
         _ => InnerKind::Spy,
     };
     let job = match v["kop"].as_str().unwrap_or("") {
+        "cmask" => Job::CMask(if v["lang"].as_str() == Some("rust") { "rust" } else { "html" }, v["cond"].as_u64().unwrap_or(0) as usize, text),
         "tsmask" => Job::TsMask(if v["lang"].as_str() == Some("rust") { "rust" } else { "html" }, v["cond"].as_u64().unwrap_or(0) as usize, text),
         "mws" => Job::Mws(text, spans),
         "maskparse" => Job::MaskParse(text, spans),
@@ -762,8 +976,11 @@ pub fn replay(sess: &mut Session, v: &Value) {
         "cursor" => Job::Cursor(text, v["pushes"].as_array().map(|a| a.iter().map(|p| p.as_u64().unwrap_or(0) as usize).collect()).unwrap_or_default()),
         _ => Job::MdTrav(text),
     };
-    let o = run_job(&job);
-    sess.k(&o.op, &o.imp);
+    let o = run_job(&job, &cgen::ignore_markers());
+    let case = sess.k(&o.op, &o.imp);
+    for (class, desc) in o.fails {
+        sess.fail(&class, desc, job_json(&job), Some(case));
+    }
 }
 
 pub fn run(ctx: &Ctx, sess: &mut Session, rng: &mut Rng) {
@@ -779,6 +996,46 @@ pub fn run(ctx: &Ctx, sess: &mut Session, rng: &mut Rng) {
     for t in ["// é one\n// two\nfn f() { let s = \"😀\"; } // three\n", "/* a /* b */ c */ fn g() {}", "fn f() {} /// é"] {
         for c in 0..CONDS.len() {
             jobs.push(Job::TsMask("rust", c, t.to_string()));
+        }
+    }
+    // CommentMasker: every marker spelling (regenerated from masker.rs ∪ committed list) and near-misses,
+    // in line / block / doc comments, merged and unmerged neighbours, HTML text and comments; `#!` spans
+    let markers = cgen::ignore_markers();
+    let near: Vec<String> = [
+        "spellchecker :ignore", "Harper:ignore", "harper:Ignore", "harper:  ignore", "harper:\tignore", "harper:\u{a0}ignore", "spell-check:ignore",
+        "spell-check: ignore", "harper-ignore", "harper:ignor", "arper:ignore", "harper:ign ore", "spellchecker:ignoré", "ｈarper:ignore", "harper;ignore",
+        "spellcheck ignore", "harper:", "ignore", "harper:\nignore",
+    ]
+    .iter()
+    .map(|s| s.to_string())
+    .collect();
+    for m in markers.iter().chain(near.iter()) {
+        for t in [
+            format!("// {} zqx\nfn f() {{}}\n// kept wörd\n", m),
+            format!("/* é {} */ fn f() {{}} /* kept */", m),
+            format!("// a\n// {}\n// b\nfn f() {{}}\n// c 😀", m),
+            format!("fn f() {{}} // x{}y\n\n/// doc é\nfn g() {{}}", m),
+            format!("//{}", m),
+            format!("let s = \"{}\"; // kept", m),
+        ] {
+            for c in [1usize, 2, 3, 4] {
+                jobs.push(Job::CMask("rust", c, t.clone()));
+            }
+        }
+        for t in [format!("<p>{} é</p><b>kept</b>", m), format!("<!-- {} --><p>x</p>", m), format!("{}", m), format!("<p>a</p> {} <i>b</i>", m)] {
+            for c in [0usize, 1, 2, 4] {
+                jobs.push(Job::CMask("html", c, t.clone()));
+            }
+        }
+    }
+    for t in ["#![allow(x)]\n// a", "#!/usr/bin/env zqrun\n// a\nfn f() {}", "//#!x", "// #!x", "#![a]", "# ![a]\n//b", "#!", "fn f() {} //! x\n#!"] {
+        for c in 1..CONDS.len() {
+            jobs.push(Job::CMask("rust", c, t.to_string()));
+        }
+    }
+    for t in ["#!é <b>x</b>", "<p>#!x</p>", "<p> #!x</p>", "#", "!#x", "#!", "a #!x", "<p>#</p><p>!x</p>", "<!--#!x--><p>y</p>"] {
+        for c in 0..CONDS.len() {
+            jobs.push(Job::CMask("html", c, t.to_string()));
         }
     }
     jobs.push(Job::Mws("word word\nword".into(), vec![(0, 4), (5, 9), (10, 14)]));
@@ -829,6 +1086,14 @@ pub fn run(ctx: &Ctx, sess: &mut Session, rng: &mut Rng) {
             jobs.push(Job::Mws("é  x".into(), l.clone()));
             jobs.push(Job::MaskParse("a\n é".into(), l));
         }
+    }
+    // CommentMasker: a few comment pieces × marker pieces — every Rust text of ≤5 (quick) / ≤6 (thorough)
+    // pieces, node condition `comment`; every HTML text of ≤4 / ≤5 pieces, node condition `text`
+    for t in all_strings(&["//", "harper:", "ignore", " ", "\n", "a", "x;"], if thorough { 6 } else { 5 }) {
+        jobs.push(Job::CMask("rust", 1, t));
+    }
+    for t in all_strings(&["#!", "harper:", " ignore", "<b>", "a", "\n", " "], if thorough { 5 } else { 4 }) {
+        jobs.push(Job::CMask("html", 0, t));
     }
     // Unit / JsDoc with the spy: every text of ≤5 (quick) / ≤6 (thorough) pieces
     let unit_alpha = ["a", "/", "*", " ", "\n", "```"];
@@ -889,8 +1154,28 @@ pub fn run(ctx: &Ctx, sess: &mut Session, rng: &mut Rng) {
 
     // ---- structured random ------------------------------------------------------------------
     let n = if thorough { 20000 } else { 3000 };
-    let markers = cgen::ignore_markers();
     let rust = cgen::comment_lang("rust").unwrap();
+    // (its own generator, derived from the seed: the draws of the streams below — and of the O part,
+    // which forks from `rng` after K — stay what they were before this stream existed)
+    let rng_main = rng;
+    let mut rng_cm = Rng::new(ctx.seed ^ 0x636d_6173_6b);
+    let rng = &mut rng_cm;
+    for i in 0..n / 2 {
+        // CommentMasker: generated Rust files (the generator plants ignore markers) / HTML with a marker
+        // or a near-miss planted at a random character boundary; every node condition
+        let (lang, mut text) = if i % 3 != 0 { ("rust", cgen::gen_comment_file(rng, &rust, &markers).text) } else { ("html", cgen::gen_html(rng).text) };
+        if lang == "html" || rng.chance(1, 3) {
+            let m = if rng.chance(2, 3) { rng.pick(&markers).clone() } else if rng.chance(1, 2) { rng.pick(&near).clone() } else { "#!".to_string() };
+            let mut at = rng.below(text.len() + 1);
+            while !text.is_char_boundary(at) {
+                at -= 1;
+            }
+            text.insert_str(at, &m);
+        }
+        let text = if rng.chance(1, 6) { crate::textgen::mutate(rng, &text) } else { text };
+        jobs.push(Job::CMask(lang, if rng.chance(1, 2) { 1 } else { i % CONDS.len() }, text));
+    }
+    let rng = rng_main;
     for i in 0..n {
         // tree-sitter: generated HTML / Rust files (multi-byte content), every node condition
         let (lang, text) = if i % 2 == 0 { ("html", cgen::gen_html(rng).text) } else { ("rust", cgen::gen_comment_file(rng, &rust, &markers).text) };
@@ -931,9 +1216,12 @@ pub fn run(ctx: &Ctx, sess: &mut Session, rng: &mut Rng) {
         jobs.push(Job::MdTrav(cgen::gen_markdown(rng, false).text));
     }
 
-    let outs = par_map(jobs.len(), 16, |i| run_job(&jobs[i]));
+    let outs = par_map(jobs.len(), 16, |i| run_job(&jobs[i], &markers));
     for (i, o) in outs.into_iter().enumerate() {
-        sess.k(&o.op, &o.imp);
+        let case = sess.k(&o.op, &o.imp);
+        for (class, desc) in &o.fails {
+            sess.fail(class, desc.clone(), job_json(&jobs[i]), Some(case));
+        }
         sess.count(if i < n_corpus { "k-stream:corpus" } else if i < n_exh { "k-stream:exhaustive" } else { "k-stream:random" });
         for c in &o.counts {
             if let Some(rest) = c.strip_prefix("monitor:") {
@@ -947,5 +1235,4 @@ pub fn run(ctx: &Ctx, sess: &mut Session, rng: &mut Rng) {
             sess.nontrivial(&o.op);
         }
     }
-    let _ = job_json;
 }
